@@ -21,7 +21,7 @@ LEVEL = "model_checking"
 RULE = (
     "grammars assgn/list x composites over a schema-stratified core of closed base formulas: shapes {F, F&G, F|G, (F&G)&H, raw "
     "Conj(F,G,H), Disj(F,G,H), Conj(Disj(F,G),H), Conj(Disj(F,G),Disj(H,F)), Conj(Disj(F,G),F,G), Disj(Conj(F,G),H), Neg(Conj(F,G,H)), "
-    "Neg(Neg(F)), quantifier over a raw 3-ary conjunction/disjunction of atoms} x rewrites {identity, -, NNF, NNF of -, DNF(NNF) deep and "
+    "Neg(Neg(F)), quantifier over a raw 3-ary conjunction/disjunction of atoms, F combined with its dual quantifier over the same variable and body} x rewrites {identity, -, NNF, NNF of -, DNF(NNF) deep and "
     "shallow, DNF directly on composites already in NNF, ensure_unique_bound_variables, & and | with a further formula} x all closed trees; a schema is (shape, rewrite, grammar); "
     "non-trivial iff both verdicts are demanded"
 )
@@ -200,6 +200,7 @@ def chunks(tier, seed):
         for i in range(0, len(triples), per):
             out.append(dict(g=name, lo=i, hi=min(len(triples), i + per), tier=tier, kind="prop"))
         out.append(dict(g=name, tier=tier, kind="qbody"))
+        out.append(dict(g=name, tier=tier, kind="dual"))
     return out
 
 
@@ -350,6 +351,24 @@ def run_chunk(chunk):
                            dict(g=name, shape="q:" + tag, rw=rw, idx=[], tree=None), "no exception", type(e).__name__)
         r.sample({"grammar": name, "kind": "quantifier over raw n-ary bodies", "cases": 8, "rewrites": REWRITES})
         return r
+    if chunk["kind"] == "dual":
+        # F combined with its dual quantifier over the SAME variable, domain and body
+        # ("all <x> satisfy phi, and there is at least one"): operands that differ only in the quantifier kind
+        n = len(prepared)
+        for i, (f, F) in enumerate(prepared):
+            if f[0] not in ("forall", "exists"):
+                continue
+            d = ("exists" if f[0] == "forall" else "forall",) + f[1:]
+            D = common.parse(sem.to_isla(d), g)
+            for shape, pair in (("F&G", [(f, F), (d, D)]), ("F|G", [(f, F), (d, D)]), ("F&G", [(d, D), (f, F)]), ("Conj(Disj,H)", [(f, F), (d, D)])):
+                full = pair + [prepared[(i + 1) % n], prepared[(i + 2) % n]]
+                try:
+                    with time_cap(180):
+                        run_case(r, name, g, cg, trees, full, shape, ("dual", i, shape), REWRITES)
+                except CaseTimeout:
+                    r.caps["case_timeout_180s"] += 1
+        r.sample({"grammar": name, "kind": "formula combined with its dual quantifier (same variable, domain, body)", "bases": n})
+        return r
     n = len(prepared)
     triples = _triples(n, tier)[chunk["lo"]:chunk["hi"]]
     for (i, j, k) in triples:
@@ -378,6 +397,9 @@ def replay(case):
         ch = dict(g=name, tier=tier, kind="qbody")
         r2 = run_chunk(ch)
         return [v for v in r2.viols if v["case"]["shape"] == case["shape"] and v["case"]["rw"] == case["rw"]]
+    if case["idx"] and case["idx"][0] == "dual":
+        r2 = run_chunk(dict(g=name, tier=tier, kind="dual"))
+        return [v for v in r2.viols if v["case"]["idx"] == case["idx"] and v["case"]["rw"] == case["rw"]]
     i, j, k = case["idx"]
     n = len(prepared)
     pair = [prepared[i], prepared[j], prepared[k], prepared[(k + 1) % n]]
